@@ -50,18 +50,18 @@ from common import Outcome
 A = "/rnacos/api/console"
 B = "/rnacos/api/console/v2"
 METHODS = ["GET", "POST", "PUT", "DELETE", "PATCH", "HEAD", "OPTIONS"]
-ROLE_STRINGS = ["0", "1", "2", "", "9", "admin"]
+ROLE_STRINGS = ["0", "1", "2", "", "9", "admin", "00", "+1", " 2"]       # the last three: strings that only LOOK like a role
 # exempt from clause (a) by the property statement (NOT read from the repository's ignore list)
 EXEMPT_API = {A + "/login/login", A + "/login/captcha", B + "/login/login", B + "/login/captcha",
               B + "/login/config", B + "/login/oauth2/login"}
 LOGOUT_PATHS = {A + "/login/logout", B + "/login/logout"}
 # test users: name -> role string given to the console API
-USERS = [("c17_vis", "2"), ("c17_dev", "1"), ("c17_mgr", "0"), ("c17_vd", "2,1"), ("c17_unk", "9")]
+USERS = [("c17_vis", "2"), ("c17_dev", "1"), ("c17_mgr", "0"), ("c17_vd", "2,1"), ("c17_unk", "9"), ("c17_z0", "00")]
 USERS_THOROUGH = [("c17_unk2", "admin"), ("c17_mv", "0,2"), ("c17_ud", "9,1")]
 USER_LABEL = {"c17_vis": "visitor", "c17_dev": "developer", "c17_mgr": "manager", "c17_vd": "visitor+developer",
-              "c17_unk": "unknown-role", "c17_unk2": "unknown-role", "c17_mv": "manager+visitor", "c17_ud": "unknown+developer"}
-SINGLE_ROLE_USER = {"0": "c17_mgr", "1": "c17_dev", "2": "c17_vis", "9": "c17_unk", "admin": "c17_unk2"}
-UNKNOWN_USERS = ("c17_unk", "c17_unk2")
+              "c17_unk": "unknown-role", "c17_unk2": "unknown-role", "c17_z0": "unknown-role", "c17_mv": "manager+visitor", "c17_ud": "unknown+developer"}
+SINGLE_ROLE_USER = {"0": "c17_mgr", "1": "c17_dev", "2": "c17_vis", "9": "c17_unk", "admin": "c17_unk2", "00": "c17_z0"}
+UNKNOWN_USERS = ("c17_unk", "c17_unk2", "c17_z0")
 WORKERS = 8
 
 
@@ -1275,6 +1275,49 @@ class Check:
         self.out.extra["self_service"] = res
 
 
+def logout_race_part(out, node, user, password_fn):
+    """a session ends when the logout is ANSWERED: a request that is already queued behind the logout on the same connection
+    (one TCP write: logout + API call) must be refused, in every round"""
+    import socket
+    rounds, hits, judged = 10, [], 0
+    for i in range(rounds):
+        tok, r = node.console_login(user, password_fn(user), wait=10)
+        if not tok:
+            continue
+        host = "127.0.0.1:%d" % node.console_port
+        req1 = ("POST %s/login/logout HTTP/1.1\r\nHost: %s\r\nCookie: token=%s\r\nContent-Length: 0\r\n\r\n" % (B, host, tok)).encode()
+        req2 = ("GET %s/user/list?pageNo=1&pageSize=5 HTTP/1.1\r\nHost: %s\r\nCookie: token=%s\r\nConnection: close\r\n\r\n" % (B, host, tok)).encode()
+        try:
+            sk = socket.create_connection(("127.0.0.1", node.console_port), timeout=5)
+            sk.sendall(req1 + req2)
+            buf = b""
+            sk.settimeout(5)
+            while True:
+                chunk = sk.recv(65536)
+                if not chunk:
+                    break
+                buf += chunk
+            sk.close()
+        except OSError:
+            continue
+        parts = buf.split(b"HTTP/1.1 ")
+        if len(parts) < 3:
+            continue
+        second = parts[2]
+        judged += 1
+        head = second.split(b"\r\n\r\n", 1)[0].lower()
+        body = second.split(b"\r\n\r\n", 1)[1] if b"\r\n\r\n" in second else b""
+        refused = b"no-login: 1" in head or second[:3] in (b"401", b"403", b"302") or b"NO_LOGIN" in body
+        if not refused and second[:3] == b"200" and b"\"list\"" in body:
+            hits.append({"round": i, "status": second[:3].decode(), "body": body[:120].decode("utf-8", "replace")})
+    out.evaluations += judged
+    if hits:
+        out.violation("invalid-session-accepted/logged-out/request-queued-behind-the-logout", {"rounds": rounds, "judged": judged, "accepted": len(hits), "first": hits[0], "user": user})
+    elif judged:
+        out.shape("logged-out/pipelined-behind-logout/refused")
+    out.extra["logout_race"] = {"rounds": rounds, "judged": judged, "accepted": len(hits)}
+
+
 def restart_session_part(out, wd):
     """a session that ran out stays refused when the session store is rebuilt at start-up - from the raft log, and from a
     snapshot once one was written while the session was still alive. Two short-TTL nodes (one per variant), in parallel."""
@@ -1419,6 +1462,16 @@ def run(tier, seed):
                 raise
             out.extra["incomplete"] = str(e)[:500]
             common.log("C17: later phase not completed: %s" % str(e)[:300])
+        lr_node = None
+        try:
+            lr_node = procrig.Node(wd, 12, env={"RNACOS_CONSOLE_LOGIN_ONE_HOUR_LIMIT": "100000"}, name="logoutrace")
+            lr_node.start()
+            logout_race_part(out, lr_node, "admin", lambda u: "admin")
+        except Exception as e:      # harness trouble is never a verdict
+            out.extra["logout_race"] = "inconclusive: %r" % e
+        finally:
+            if lr_node is not None:
+                lr_node.kill()
         leaderless_requests = leaderless_node_part(out, wd, getattr(chk, "registered", None) or [])
         leaderless_requests += restart_session_part(out, wd)
         rq = chk.rig.requests + chk.rigb.requests + leaderless_requests
